@@ -1,5 +1,235 @@
-"""C01-c placeholder (filled in below)."""
+"""C01-c — subscripts derived from LPC integers are range-checked (A4).
+
+Flow-sensitive reaching definitions decide, at every subscript of an LPC container (array/class items,
+buffer bytes, string characters), whether the index variable was assigned *directly* from an LPC value
+(`x = (int) sp->u.number`, `x = size - sp->u.number`, ...).  For those first-level indices the dominating
+branch facts must bound the variable below and above, and for element/byte containers the upper bound
+must be strict with respect to the container's own size.  Three-valued verdict: proved / violated /
+undecided; only `violated` (positive evidence: a missing side, or `<=` against the container's size)
+alarms.  Indices that are derived further (i = start / 6 ...) are reported as undecided."""
+import cfgq
+from core import rel
+from dataflow import solve
+from facts import strip, show, walk, const_val, normalize_cond, atom_of
+
+SCOPE_QUICK = ("src/interpret.c", "lib/lpc/operator.c", "lib/lpc/array.c", "lib/lpc/mapping.c", "lib/lpc/buffer.c", "lib/lpc/class.c", "lib/efuns/string.c",
+               "lib/efuns/bits.c", "lib/efuns/unsorted.c", "lib/efuns/sscanf.c", "lib/efuns/sprintf.c", "lib/efuns/regexp.c", "lib/efuns/parse.c", "lib/efuns/file.c",
+               "lib/efuns/maps.c", "lib/efuns/call_other.c", "lib/efuns/variable.c")
+
+
+def is_src(n):
+    return n.get("k") == "Mem" and n.get("f") == "number" and n.get("rec") == "svalue_u"
+
+
+ALIAS = {}
+
+
+def alias_kind(f, ref):
+    """A local pointer all of whose definitions are `X->u.string`, `X->u.buf->item` or `X->item`."""
+    key = (f.file, f.name, ref.get("id"))
+    if key in ALIAS:
+        return ALIAS[key]
+    srcs = []
+    for b, i, n in f.nodes():
+        if n.get("k") == "Asg" and n.get("op") == "=" and strip(n["L"]).get("k") == "Ref" and strip(n["L"]).get("id") == ref.get("id"):
+            srcs.append(strip(n["R"]))
+        if n.get("k") == "Decl":
+            for v in n.get("vars", []):
+                if v.get("id") == ref.get("id") and "init" in v:
+                    srcs.append(strip(v["init"]))
+    out = None
+    kinds = set()
+    for r in srcs:
+        if r.get("k") == "Mem" and r.get("f") == "string" and r.get("rec") == "svalue_u":
+            kinds.add(("chars", show(strip(strip(r["b"])["b"])) if strip(r["b"]).get("k") == "Mem" else show(r)))
+        elif r.get("k") == "Mem" and r.get("f") == "item" and r.get("rec") in ("buffer_s", "buffer_t"):
+            kinds.add(("bytes", show(strip(r["b"]))))
+        elif r.get("k") == "Mem" and r.get("f") == "item" and r.get("rec") in ("array_s", "array_t"):
+            kinds.add(("items", show(strip(r["b"]))))
+        else:
+            kinds.add(None)
+    if len(kinds) == 1 and None not in kinds:
+        out = kinds.pop()
+    ALIAS[key] = out
+    return out
+
+
+def container_of(sub, f=None):
+    """(kind, base text) for subscripts of LPC containers; None otherwise."""
+    b = strip(sub["b"])
+    if f is not None and b.get("k") == "Ref" and b.get("d") == "local" and b.get("t", "").endswith("*"):
+        return alias_kind(f, b)
+    if b.get("k") == "Mem":
+        if b.get("f") == "item" and b.get("rec") in ("array_s", "array_t"):
+            return "items", show(strip(b["b"]))
+        if b.get("f") == "item" and b.get("rec") in ("buffer_s", "buffer_t"):
+            return "bytes", show(strip(b["b"]))
+        if b.get("f") == "string" and b.get("rec") == "svalue_u":
+            return "chars", show(strip(strip(b["b"])["b"])) if strip(b["b"]).get("k") == "Mem" else show(strip(b["b"]))
+    return None
 
 
 def check(run, prog, tier, funcs):
-    return
+    run.rule("C01-c", "a subscript of an LPC array/buffer/string whose index was assigned directly from an LPC integer is dominated by a lower bound and by an upper bound; for arrays and buffers the upper bound against the container's size is strict", 12)
+    scope = [f for f in funcs if tier == "thorough" or f.file.endswith(SCOPE_QUICK)]
+    nsink = 0
+    for f in sorted(scope, key=lambda x: (x.file, x.line)):
+        # quick reject
+        if not any(True for b, i, n in f.nodes() if is_src(n)):
+            continue
+        # reaching definitions: var id -> frozenset of def kinds ('lpc', 'derived', 'other')
+        defs_of = {}
+
+        def classify(rhs, st):
+            r = strip(rhs)
+            if r.get("k") == "Call":
+                return "other"
+            has_src = any(is_src(x) for x in walk(r))
+            has_tainted = any(x.get("k") == "Ref" and x.get("d") in ("local", "param") and ("lpc" in st.get(x.get("id"), ()) or "derived" in st.get(x.get("id"), ())) for x in walk(r))
+            if has_src:
+                # direct: only +/- with constants or a size term; division/modulo make it derived
+                if any(x.get("k") == "Bin" and x.get("op") in ("/", "%", "*", ">>", "<<", "&") for x in walk(r)):
+                    return "derived"
+                return "lpc"
+            if has_tainted:
+                if r.get("k") == "Ref":
+                    return "copy:%s" % r.get("id")
+                # a linear form  size - v  /  v + c  of a first-level index is still first-level
+                lpc_only = all("lpc" in st.get(x.get("id"), ()) and "derived" not in st.get(x.get("id"), ()) for x in walk(r)
+                               if x.get("k") == "Ref" and x.get("d") in ("local", "param") and (set(st.get(x.get("id"), ())) & {"lpc", "derived"}))
+                if lpc_only and not any(x.get("k") == "Bin" and x.get("op") not in ("+", "-") for x in walk(r)) and not any(x.get("k") in ("Call", "Cond") for x in walk(r)):
+                    return "lpc"
+                return "derived"
+            return "other"
+
+        def transfer(record):
+            def t(blk, st):
+                for i, e in enumerate(blk.el):
+                    if record is not None:
+                        for n in walk(e, True):
+                            if n.get("k") == "Sub" and container_of(n, f):
+                                record.append((blk, i, n, st))
+                    for n in walk(e, True):
+                        k = n.get("k")
+                        if k == "Asg" and strip(n["L"]).get("k") == "Ref" and strip(n["L"]).get("d") in ("local", "param"):
+                            vid = strip(n["L"]).get("id")
+                            if n.get("op") == "=":
+                                c = classify(n["R"], st)
+                                if c.startswith("copy:"):
+                                    c2 = st.get(int(c[5:]), frozenset())
+                                    st = dict(st)
+                                    st[vid] = c2
+                                else:
+                                    st = dict(st)
+                                    st[vid] = frozenset([c])
+                            else:
+                                cur = st.get(vid, frozenset(["other"]))
+                                st = dict(st)
+                                st[vid] = frozenset("derived" if x == "lpc" else x for x in cur) | (frozenset(["derived"]) if classify(n["R"], st) != "other" else frozenset())
+                        elif k == "Decl":
+                            for v in n.get("vars", []):
+                                if "init" in v:
+                                    c = classify(v["init"], st)
+                                    st = dict(st)
+                                    st[v.get("id")] = st.get(int(c[5:]), frozenset()) if c.startswith("copy:") else frozenset([c])
+                        elif k == "Un" and n.get("op") in ("++", "--") and strip(n["e"]).get("k") == "Ref":
+                            vid = strip(n["e"]).get("id")
+                            if vid in st and "lpc" in st[vid]:
+                                st = dict(st)
+                                st[vid] = frozenset("derived" if x == "lpc" else x for x in st[vid])
+                return st
+            return t
+
+        def join(a, b):
+            out = dict(a)
+            for k, v in b.items():
+                out[k] = out.get(k, frozenset()) | v
+            return out
+        try:
+            ins = solve(f, {}, transfer(None), None, join)
+        except RuntimeError:
+            continue
+        rec = []
+        tr = transfer(rec)
+        for bid in sorted(f.reachable(), reverse=True):
+            if bid in ins:
+                tr(f.blocks[bid], ins[bid])
+        ordn = {}
+        for blk, i, n, st in rec:
+            kind, base = container_of(n, f)
+            idx = strip(n["i"])
+            off = 0
+            if idx.get("k") == "Bin" and idx.get("op") in ("+", "-") and const_val(idx["R"]) is not None:
+                off = const_val(idx["R"]) * (1 if idx["op"] == "+" else -1)
+                idx = strip(idx["L"])
+            direct_src = any(is_src(x) for x in walk(idx))
+            if idx.get("k") == "Ref" and idx.get("d") in ("local", "param"):
+                kinds = st.get(idx.get("id"), frozenset())
+            elif direct_src:
+                kinds = frozenset(["lpc"])
+            else:
+                continue
+            if not (kinds & {"lpc", "derived"}):
+                continue
+            run.saw(f)
+            nsink += 1
+            label = ""
+            if f.name == "eval_instruction":
+                sg = cfgq.switch_guard(f, blk.id)
+                labs = sorted({(l.get("src") or l.get("k")) for l in (sg[1] if sg else []) if l})
+                label = ":" + "/".join(labs[:2])
+            key = (label, kind, base)
+            o = ordn.get(key, 0)
+            ordn[key] = o + 1
+            inst = "index:%s:%s%s:%s[%s]:%d" % (rel(f.file), f.name, label, base, kind, o)
+            vname = idx.get("n") if idx.get("k") == "Ref" else show(idx)
+            if kinds != frozenset(["lpc"]):
+                run.ob("C01-c", inst, None, "%s: index %s is derived from an LPC integer through further arithmetic or several definitions (%s)" % (show(n)[:40], vname, sorted(kinds)), f.file, n.get("l"), f.name)
+                continue
+            lower = upper = None
+            strict_ok = None
+            unsigned = "unsigned" in idx.get("t", "") or idx.get("t", "") in ("size_t",)
+            for c, t, B in cfgq.guards(f, blk.id):
+                op, l, r = atom_of(c, t)
+                if op in ("true", "false"):
+                    continue
+                ls, rs = strip(l), strip(r)
+                same_l = show(ls) == show(idx)
+                same_r = show(rs) == show(idx)
+                if not (same_l or same_r):
+                    continue
+                if same_r:
+                    op = {"<": ">", ">": "<", "<=": ">=", ">=": "<=", "==": "==", "!=": "!="}[op]
+                    ls, rs = rs, ls
+                if op in (">=", ">"):
+                    cv = const_val(rs)
+                    if cv is not None and (cv + (1 if op == ">" else 0) + off >= 0):
+                        lower = show(c)
+                    elif cv is None:
+                        lower = show(c)
+                elif op in ("<", "<="):
+                    upper = show(c)
+                    pairs = base in show(rs) or "size" in show(rs) or "len" in show(rs).lower()
+                    if kind in ("items", "bytes") and pairs:
+                        strict = (op == "<" and off <= 0) or (op == "<=" and off < 0)
+                        strict_ok = strict if strict_ok is None else (strict_ok and strict)
+                elif op == "==":
+                    lower = upper = show(c)
+                    strict_ok = True if strict_ok is None else strict_ok
+            if unsigned:
+                lower = lower or "unsigned type"
+            if lower and upper and (kind == "chars" or strict_ok):
+                run.ob("C01-c", inst, True, "%s: %s bounded below by `%s` and above by `%s`" % (show(n)[:40], vname, lower[:40], upper[:50]), f.file, n.get("l"), f.name)
+            elif lower and upper and strict_ok is None:
+                run.ob("C01-c", inst, None, "%s: %s has bounds `%s` / `%s` but the upper bound is not visibly the container's size" % (show(n)[:40], vname, lower[:30], upper[:40]), f.file, n.get("l"), f.name)
+            else:
+                miss = []
+                if not lower:
+                    miss.append("no lower bound (a negative LPC integer indexes before the container)")
+                if not upper:
+                    miss.append("no upper bound")
+                if lower and upper and strict_ok is False:
+                    miss.append("upper bound `%s` admits index == size (one past the end)" % upper[:50])
+                run.ob("C01-c", inst, False, "%s: %s comes straight from an LPC integer; %s" % (show(n)[:40], vname, "; ".join(miss)), f.file, n.get("l"), f.name,
+                       what="%s%s indexes %s with an LPC-controlled integer: %s" % (f.name, label, base, "; ".join(miss)))
+    run.extra["index_sinks"] = nsink
